@@ -26,28 +26,36 @@ func vhT(name string) time.Time {
 }
 
 type vhNamer struct {
-	n    int
-	seen map[string]bool
+	n        int
+	seen     map[string]bool
+	concrete bool // no symbolic content at all
 }
 
 func (v *vhNamer) name(s string) string { v.n++; return fmt.Sprintf("%s%d", s, v.n) }
 
-// state makes the first object of each kind fully symbolic; the others get fixed, distinct concrete values
-// (the reading code forks on every stored time, so symbolic times everywhere would explode without covering more code).
+// state: statuses are symbolic on the first object of each kind; times are symbolic only on the plan and the
+// designated action (the reading code forks three ways on every stored time); every other object gets fixed,
+// pairwise distinct Start/End values, which still expose swapped or dropped columns.
 func (v *vhNamer) state(s *workflow.State, kind string) {
 	if v.seen == nil {
 		v.seen = map[string]bool{}
 	}
-	if !v.seen[kind] {
-		v.seen[kind] = true
-		s.Status = workflow.Status(api.NondetInt(v.name("status")))
-		s.Start = vhT(v.name("start"))
-		s.End = vhT(v.name("end"))
-		return
-	}
-	v.n++
+	first := !v.seen[kind]
+	v.seen[kind] = true
 	s.Status = workflow.Running
+	if first && !v.concrete {
+		s.Status = workflow.Status(api.NondetInt(v.name("status")))
+	}
+	v.n += 2
 	s.Start = time.Unix(0, int64(1000+v.n))
+	s.End = time.Unix(0, int64(1001+v.n))
+	if first && !v.concrete && kind == "plan" {
+		s.Start = vhT(v.name("start")) // plan: symbolic start, zero end
+		s.End = time.Time{}
+	}
+	if first && !v.concrete && kind == "action" {
+		s.End = vhT(v.name("end")) // designated action: symbolic end
+	}
 }
 
 // fresh gives s new symbolic content unconditionally (updates).
@@ -77,7 +85,9 @@ func (v *vhNamer) attempts(maxN int) []*workflow.Attempt {
 
 // vhStored builds a plan as Submit hands it to Create (ids and states present), with every scalar symbolic
 // on the plan, the blocks, the check groups, the sequences and one designated action.
-func vhStored(tag string, small bool) *workflow.Plan {
+func vhStored(tag string, small bool) *workflow.Plan { return vhStoredX(tag, small, false) }
+
+func vhStoredX(tag string, small, concrete bool) *workflow.Plan {
 	cfg := shape.Cfg{MinBlocks: 1, MaxBlocks: api.Bound("blocks", 2, 2), MinSeqs: 1, MaxSeqs: api.Bound("seqs", 2, 2), MinActions: 1, MaxActions: api.Bound("actions", 2, 2),
 		PlanGroups: api.Bound("plan_groups_family", shape.GroupsNoneOrAll, shape.GroupsFamily), BlockGroups: api.Bound("block_groups_family", shape.GroupsNoneOrAll, shape.GroupsFamily),
 		CheckActions: 1, SimpleTailBlocks: true, SimpleTailSeqs: true, WithState: true, Req: kit.Req{N: 3}}
@@ -85,41 +95,52 @@ func vhStored(tag string, small bool) *workflow.Plan {
 		cfg = shape.Cfg{MinBlocks: 1, MaxBlocks: 1, MinSeqs: 1, MaxSeqs: 1, MinActions: 1, MaxActions: 1, PlanGroups: shape.GroupsNoneOrAll, CheckActions: 1, WithState: true, Req: kit.Req{N: 3}}
 	}
 	p := shape.Plan(cfg)
-	v := &vhNamer{}
+	v := &vhNamer{concrete: concrete}
 	p.Name, p.Descr = tag+"plan", tag+"descr"
-	switch api.Choose(tag+"meta_and_group", 3) {
+	mg := 0
+	if !concrete {
+		mg = api.Choose(tag+"meta_and_group", 3)
+	}
+	switch mg {
 	case 1:
 		p.Meta = []byte{}
 		p.GroupID = workflow.NewV7()
 	case 2:
 		p.Meta = []byte{api.NondetUint8(tag + "meta0"), 7}
 	}
-	p.SubmitTime = vhT(tag + "submit")
-	p.Reason = workflow.FailureReason(api.NondetInt(tag + "reason"))
+	p.SubmitTime = time.Unix(0, 777)
+	if !concrete {
+		p.SubmitTime = vhT(tag + "submit")
+		p.Reason = workflow.FailureReason(api.NondetInt(tag + "reason"))
+	}
 	symDone := false
 	for it := range walk.Plan(p) {
 		switch x := it.Value.(type) {
 		case *workflow.Plan:
 			v.state(x.State, "plan")
 		case *workflow.Checks:
-			x.Delay = api.NondetDuration(v.name("delay"))
+			if !concrete {
+				x.Delay = api.NondetDuration(v.name("delay"))
+			}
 			x.Key = workflow.NewV7()
 			v.state(x.State, "checks")
 		case *workflow.Block:
-			x.EntranceDelay = api.NondetDuration(v.name("entrance"))
-			x.ExitDelay = api.NondetDuration(v.name("exit"))
-			x.Concurrency = api.NondetInt(v.name("conc"))
-			x.ToleratedFailures = api.NondetInt(v.name("tol"))
+			if !concrete {
+				x.EntranceDelay = api.NondetDuration(v.name("entrance"))
+				x.ExitDelay = api.NondetDuration(v.name("exit"))
+				x.Concurrency = api.NondetInt(v.name("conc"))
+				x.ToleratedFailures = api.NondetInt(v.name("tol"))
+			}
 			v.state(x.State, "block")
 		case *workflow.Sequence:
-			if api.Choose(v.name("seqkey"), 2) == 1 {
+			if !concrete && !v.seen["sequence"] && api.Choose("seqkey", 2) == 1 {
 				x.Key = workflow.NewV7()
 			}
 			v.state(x.State, "sequence")
 		case *workflow.Action:
 			_, inSeq := it.Chain[len(it.Chain)-1].(*workflow.Sequence)
 			x.Timeout = 7 * time.Second
-			if inSeq && !symDone {
+			if inSeq && !symDone && !concrete {
 				symDone = true
 				x.Timeout = api.NondetDuration(v.name("timeout"))
 				x.Retries = api.NondetInt(v.name("retries"))
@@ -269,7 +290,7 @@ func VerifC13Create() {
 func VerifC13Update() {
 	v, _ := vhVault()
 	ctx := context.Background()
-	p := vhStored("", true)
+	p := vhStoredX("", true, true)
 	api.Assert(v.Create(ctx, p) == nil, "Create of a well-formed plan succeeds")
 	nm := &vhNamer{n: 1000}
 	n := 1 + api.Choose("updates", api.Bound("max_updates", 1, 2))
@@ -318,11 +339,11 @@ func VerifC13Unknown() {
 	deleted := api.Choose("deleted", 2) == 1
 	id := workflow.NewV7()
 	if api.Choose("other_plan_present", 2) == 1 {
-		o := vhStored("o.", true)
+		o := vhStoredX("o.", true, true)
 		api.Assert(v.Create(ctx, o) == nil, "Create of a well-formed plan succeeds")
 	}
 	if deleted {
-		p := vhStored("", true)
+		p := vhStoredX("", true, true)
 		id = p.ID
 		api.Assert(v.Create(ctx, p) == nil, "Create of a well-formed plan succeeds")
 		api.Assert(v.Delete(ctx, id) == nil, "Delete of a stored plan succeeds")
